@@ -80,6 +80,8 @@ class ModelMixin(ModelMixin2, ModelMixin3):
             return f'len({self.describe(Ref("list", v.sym), st, depth + 1)})'
         if isinstance(v, ClsV):
             return v.qual.split(':')[-1]
+        if isinstance(v, IterV):
+            return f'{v.kind}({self.describe(v.src, st, depth + 1)})'
         return type(v).__name__
 
     def idx_descr(self, e: IdxE, st, depth=0):
@@ -378,6 +380,7 @@ class ModelMixin(ModelMixin2, ModelMixin3):
                 sym = a.origin[1][1]
                 if sym in st.heap:
                     st.put(sym, replace(st.get(sym), tag=b.v))
+                    s2.facts.add(('tagne', sym, b.v))
         if isinstance(l, StrV) and isinstance(r, StrV) and l.sym and r.sym:
             st.facts.add(('streq', min(l.sym, r.sym), max(l.sym, r.sym)))
             s2.facts.add(('strne', min(l.sym, r.sym), max(l.sym, r.sym)))
